@@ -31,7 +31,7 @@ func (c17) Cases(tier string) int {
 }
 
 var c17KeywordNames = []string{"iffy", "settings", "jumpy", "calling", "declared", "localize", "enumerate", "casey", "stopper", "waiting", "ifx", "setup", "callback", "jumps", "elseif_like_but_not"[:0] + "elifx", "enums", "cases", "locals", "stops", "waits"}
-var c17PlainNames = []string{"déjà", "Ångström", "act", "Emote", "play_sound", "fx2", "déplacer", "移動", "ход", "a", "x_y_z", "Camera"}
+var c17PlainNames = []string{"déjà", "Ångström", "act", "Emote", "play_sound", "fx2", "déplacer", "移動", "ход", "a", "x_y_z", "Camera", "Stop", "STOP", "Wait", "sTop"}
 
 // names the lexer reads as keywords although they only begin with one: known finding K3
 var c17K3Names = []string{"elsewhere", "elseifx", "endiffy", "endenumx", "else_", "endifs", "endenumerate", "elsey"}
@@ -242,6 +242,16 @@ func (p c17) Run(c *core.Ctx) {
 			return ch
 		})
 	}
+	if r.Chance(1, 3) {
+		// the host restores the runner from its own initial snapshot AFTER it registered its handlers: the
+		// registrations are the runner's configuration, not dialogue state
+		if err := pair.R.RestoreAt(pair.R.DR.Snapshot()); err != nil {
+			c.Violate("restoring a runner from its own initial snapshot failed: "+err.Error(), map[string]any{"readers": scripts})
+			return
+		}
+		pair.M.Restore(pair.M.Check.Clone())
+		c.Feature("handlers-registered-before-a-restore")
+	}
 	stopCalls := 0
 	pair.R.DR.AddCommand("stop", mon.AdaptCmd(func(a []model.Val) error {
 		stopCalls++
@@ -327,6 +337,8 @@ func (p c17) Run(c *core.Ctx) {
 			hast.Bin("+", hast.Str("x"), hast.Call("string", hast.Var("n"))), hast.Not(hast.Var("b")), hast.Bin("+", hast.Var("s"), hast.Str("!")),
 			hast.Var("n"), hast.Var("b"), hast.Var("s"), hast.Call("p", hast.Num("1"), hast.Var("n")), hast.Bin("-", hast.Num("100"), hast.Neg(hast.Var("n"))),
 			hast.Bin("and", hast.Var("b"), hast.Bool(true)), hast.Neg(hast.Neg(hast.Var("n"))),
+			// literals under unary operators: the script's own constants, evaluated at every execution
+			hast.Neg(hast.Num("3")), hast.Not(hast.Bool(true)), hast.Neg(hast.Num("2.5")), hast.Not(hast.Bool(false)),
 		}
 		var lnames []string
 		for i := r.Range(2, 5); i > 0; i-- {
